@@ -188,7 +188,7 @@ def call_events(an: Analysis, fn: FunctionInfo, node: Node) -> Iterable[Event]:
                 yield ("PRINT", None, "print")
             elif t.name in ("os.environ.get", "os.getenv"):
                 yield ("ENV_READ", None, t.name)
-            elif t.name == "os.urandom":
+            elif t.name in ("os.urandom", "secrets.token_bytes"):
                 yield ("URANDOM", None, t.name)
             elif t.name in ("?.write",):
                 yield ("FILE_WRITE", None, t.name)
